@@ -21,39 +21,41 @@ has edges (for arbitrary sets of different sizes the comparison is NOT transitiv
 creates with positive weights always describe simple paths) -/
 def LabelOK (a : LexLabel) : Prop := StrictSorted a.verts ∧ a.verts.length = a.cnt + 1
 
-theorem c12_lexLess_irrefl (a : LexLabel) : lexLess a a = false := by
-  sorry
+theorem c12_lexLess_irrefl (a : LexLabel) : lexLess a a = false :=
+  TreesL.lexLess_irrefl a
 
 theorem c12_lexLess_asymm (a b : LexLabel) (ha : LabelOK a) (hb : LabelOK b) :
-    lexLess a b = true → lexLess b a = false := by
-  sorry
+    lexLess a b = true → lexLess b a = false :=
+  TreesL.lexLess_asymm a b ha hb
 
 theorem c12_lexLess_trans (a b c : LexLabel) (ha : LabelOK a) (hb : LabelOK b) (hc : LabelOK c) :
-    lexLess a b = true → lexLess b c = true → lexLess a c = true := by
-  sorry
+    lexLess a b = true → lexLess b c = true → lexLess a c = true :=
+  TreesL.lexLess_trans a b c ha hb hc
 
 /-- total: two canonical labels are comparable unless they are equal -/
 theorem c12_lexLess_total (a b : LexLabel) (ha : LabelOK a) (hb : LabelOK b) :
-    lexLess a b = true ∨ lexLess b a = true ∨ a = b := by
-  sorry
+    lexLess a b = true ∨ lexLess b a = true ∨ a = b :=
+  TreesL.lexLess_total a b ha hb
 
 /-- weight of an edge list -/
 def listWeight (g : Graph) (es : List Nat) : Int := (es.map g.weight).sum
 
+set_option linter.unusedVariables false in
 /-- **exactness, lower bound**: in a tree that passes the certificate no walk from the root to `v` is
-shorter than the reported distance, and a vertex without node cannot be reached at all -/
+shorter than the reported distance, and a vertex without node cannot be reached at all
+(`hs` is not needed for this direction) -/
 theorem c12_dist_lower (g : Graph) (hs : g.simpleB = true) (t : SPTree) (hc : checkSPT g t = true)
     (v : Nat) (es : List Nat) (he : ∀ e ∈ es, e < g.m) (hw : isWalk g es t.source v = true) :
-    ∃ d, t.dist.getD v none = some d ∧ d ≤ listWeight g es := by
-  sorry
+    ∃ d, t.dist.getD v none = some d ∧ d ≤ listWeight g es :=
+  TreesL.dist_lower g t hc v es he hw
 
 /-- **exactness, attained**: the predecessor edges of a node form a walk from the node back to the root
 whose weight is the reported distance (positive weights make the walk end at the root) -/
 theorem c12_dist_attained (g : Graph) (hs : g.simpleB = true) (hp : g.positiveB = true) (t : SPTree)
     (hc : checkSPT g t = true) (v : Nat) (hv : v < g.n) (d : Int) (hd : t.dist.getD v none = some d) :
     isWalk g (rootPath g t g.n v) v t.source = true ∧ listWeight g (rootPath g t g.n v) = d ∧
-    (rootPath g t g.n v).Nodup := by
-  sorry
+    (rootPath g t g.n v).Nodup :=
+  TreesL.dist_attained g hs hp t hc v hv d hd
 
 /-- **first-in-path**: for a node other than the root, `first v` is the child of the root that the root
 path of `v` passes through, i.e. the far endpoint of the LAST edge of `rootPath` is the root and its near
@@ -62,7 +64,7 @@ theorem c12_first (g : Graph) (hs : g.simpleB = true) (hp : g.positiveB = true) 
     (hc : checkSPT g t = true) (hf : checkFirst g t = true) (v : Nat) (hv : v < g.n) (hne : v ≠ t.source)
     (d : Int) (hd : t.dist.getD v none = some d) :
     ∃ e, (rootPath g t g.n v).getLast? = some e ∧ g.other e (t.first.getD v 0) = t.source ∧
-      g.inc (t.first.getD v 0) e = true := by
-  sorry
+      g.inc (t.first.getD v 0) e = true :=
+  TreesL.first_spec g hs hp t hc hf v hv hne d hd
 
 end Parmcb.C12
